@@ -57,9 +57,13 @@ func runC11(r *core.Run) {
 									ewRunCase(r, "C11", ewCase{kind: "cmp", op: op, form: "TT", mode: mode, api: api, d: d, shape: shape, layA: la, layB: lb, vs: vs, strict: true}, nil)
 								}
 							}
-							for _, form := range []string{"TS", "ST"} {
+							for _, form := range []string{"TS", "ST", "TSt", "StT"} {
+								if (form == "TSt" || form == "StT") && (op == "ElNe" || (quick && vs != "id") || len(shape) == 0) {
+									// (rank-0 operand: both operands are scalar-shaped tensors and which of them is "the scalar" is the library's choice)
+									continue // the package-level ElNe has no dispatch for a scalar-shaped tensor operand (see C07)
+								}
 								for _, api := range []string{"func", "method"} {
-									if api == "method" && quick && vs != "id" {
+									if api == "method" && (quick && vs != "id" || form == "TSt" || form == "StT") {
 										continue
 									}
 									ewRunCase(r, "C11", ewCase{kind: "cmp", op: op, form: form, mode: mode, api: api, d: d, shape: shape, layA: la, layB: la, vs: vs, strict: true}, nil)
